@@ -60,162 +60,23 @@ def loops_over_nodes(lp):
 
 
 def r1(model, rep):
+    """_diag as a whole against its reference text (sa/spec_diag.py): which nodes are added to which (sub)graph under which
+    condition, the cluster set and the cluster attributes, the legend, the edge loop with its endpoint map, the returned
+    image / written file.  Decided by reference comparison of the path summaries (sa/refcmp.py)."""
+    from .. import refcmp, sysrules
     rel = model.rel("diagram")
     fn = model.func("diagram", "_diag")
     where = "%s:%d" % (rel, fn.lineno)
-    construct = "diagram._diag"
-    GROUP = "group"
-    env = {a.arg: Sym(("name", a.arg)) for a in fn.args.args + fn.args.kwonlyargs}
-    ok = True
-    # calls of the nested add_node helper
-    helper = [x for x in fn.body if isinstance(x, ast.FunctionDef)]
-    if len(helper) != 1:
-        raise AnalysisError("_diag: nested node helper not found")
-    hname = helper[0].name
-    sites = []
-    for lp in ast.walk(fn):
-        if isinstance(lp, ast.For):
-            for iff in lp.body:
-                if isinstance(iff, ast.If) and len(iff.body) == 1 and isinstance(iff.body[0], ast.Expr) and isinstance(iff.body[0].value, ast.Call) \
-                        and is_name(iff.body[0].value.func, hname) and not iff.orelse:
-                    sites.append((lp, iff, iff.body[0].value))
-    other_calls = [c for c in ast.walk(fn) if isinstance(c, ast.Call) and is_name(c.func, hname) and not any(c is s[2] for s in sites)]
-    if len(sites) == 1 and not other_calls:
-        which = "grouped" if is_name(sites[0][2].args[0], "graph") or True else ""
-        rep.violation("R1", construct, where, "only one loop adds components to the diagram: either the clustered or the unclustered components are never drawn", "one node loop only")
-        rep.instance("R1", construct + " every component added exactly once", where, False)
-        return
-    if len(sites) != 2 or other_calls:
-        raise AnalysisError("_diag: expected two guarded node-adding loops, found %d (+%d other calls)" % (len(sites), len(other_calls)))
-    gnames = [x.targets[0].id for x in ast.walk(fn) if isinstance(x, ast.Assign) and isinstance(x.targets[0], ast.Name) and isinstance(x.value, ast.Call) and ast.unparse(x.value.func) == "pydot.Dot"]
-    if len(gnames) != 1:
-        raise AnalysisError("_diag: the top-level graph object is not bound once")
-    GRAPH = gnames[0]
-    flat = [s for s in sites if is_name(s[2].args[0], GRAPH)]
-    clus = [s for s in sites if not is_name(s[2].args[0], GRAPH)]
-    if len(flat) != 1 or len(clus) != 1:
-        raise AnalysisError("_diag: flat / cluster loop not told apart")
-    for lp, iff, call in sites:
-        if not loops_over_nodes(lp):
-            ok = False
-            rep.violation("R1", construct, "%s:%d" % (rel, lp.lineno), "a node loop ranges over %s, not over the 'nodes' registry" % ast.unparse(lp.iter), "node loop domain " + ast.unparse(lp.iter))
-        if not is_name(call.args[1], lp.target.id):
-            ok = False
-            rep.violation("R1", construct, "%s:%d" % (rel, call.lineno), "the node added is %s, not the loop's component" % ast.unparse(call.args[1]), "node added")
-    # flat condition
-    lp, iff, call = flat[0]
-    n = lp.target.id
-    e2 = dict(env)
-    e2[n] = Sym(("name", "N"))
-    got = cond_formula(iff.test, e2)
-    want = cond_formula(ast.parse('sys._g.attrs["groups"][N] == "" or not group', mode="eval").body, {**env, "N": Sym(("name", "N"))})
-    if not equiv(got, want):
-        ok = False
-        rep.violation("R1", construct, "%s:%d" % (rel, iff.lineno), "an ungrouped node is added when %s, expected %s: a component can appear twice or not at all" % (show_f(got), show_f(want)), "flat condition " + show_f(got))
-    # cluster condition and its guards
-    lp, iff, call = clus[0]
-    n = lp.target.id
-    outer = getattr(lp, "_parent", None)
-    while outer is not None and not isinstance(outer, ast.For):
-        outer = getattr(outer, "_parent", None)
-    if outer is None or not isinstance(outer.target, ast.Name):
-        raise AnalysisError("_diag: cluster loop not nested in a loop over the groups")
-    g = outer.target.id
-    e2 = dict(env)
-    e2[n] = Sym(("name", "N"))
-    e2[g] = Sym(("name", "G"))
-    got = cond_formula(iff.test, e2)
-    want = cond_formula(ast.parse('sys._g.attrs["groups"][N] == G', mode="eval").body, {**env, "N": Sym(("name", "N")), "G": Sym(("name", "G"))})
-    if not equiv(got, want):
-        ok = False
-        rep.violation("R1", construct, "%s:%d" % (rel, iff.lineno), "a node joins cluster G when %s, expected %s" % (show_f(got), show_f(want)), "cluster condition " + show_f(got))
-    gate = getattr(outer, "_parent", None)
-    gdict = ast.unparse(outer.iter).replace(".keys()", "")
-    if not isinstance(gate, ast.If):
-        ok = False
-        rep.violation("R1", construct, "%s:%d" % (rel, outer.lineno), "clusters are built even when grouping is off", "cluster gate missing")
-    else:
-        got = cond_formula(gate.test, env)
-        want = cond_formula(ast.parse("group and %s != {}" % gdict, mode="eval").body, env)
-        want2 = cond_formula(ast.parse("group", mode="eval").body, env)
-        if not (equiv(got, want) or equiv(got, want2)):
-            ok = False
-            rep.violation("R1", construct, "%s:%d" % (rel, gate.lineno), "clusters are built when %s, expected: grouping is on" % show_f(got), "cluster gate " + show_f(got))
-    # the cluster set = non-empty values of the groups registry
-    build = [x for x in ast.walk(fn) if isinstance(x, ast.For) and any(isinstance(y, ast.Assign) and isinstance(y.targets[0], ast.Subscript) and is_name(y.targets[0].value, gdict) for y in ast.walk(x))]
-    good = False
-    for b in build:
-        tv = b.target.id if isinstance(b.target, ast.Name) else None
-        if not tv or ast.unparse(b.iter).replace('"', "'").replace(" ", "") not in ("sys._g.attrs['groups'].keys()", "sys._g.attrs['groups']"):
-            continue
-        gv = [y for y in b.body if isinstance(y, ast.Assign) and isinstance(y.targets[0], ast.Name) and ast.unparse(y.value).replace('"', "'") == "sys._g.attrs['groups'][%s]" % tv]
-        iffs = [y for y in b.body if isinstance(y, ast.If) and not y.orelse and len(y.body) == 1 and isinstance(y.body[0], ast.Assign) and isinstance(y.body[0].targets[0], ast.Subscript)
-                and is_name(y.body[0].targets[0].value, gdict)]
-        if len(gv) == 1 and len(iffs) == 1:
-            G_ = gv[0].targets[0].id
-            f_ = cond_formula(iffs[0].test, {G_: Sym(("name", "GV"))})
-            w_ = cond_formula(ast.parse('GV != ""', mode="eval").body, {"GV": Sym(("name", "GV"))})
-            if equiv(f_, w_) and is_name(iffs[0].body[0].targets[0].slice, G_):
-                good = True
-    if not good:
-        ok = False
-        rep.violation("R1", construct, where, "the set of clusters is not 'the non-empty group names of the registry'", "cluster set")
-    rep.instance("R1", construct + " every component added exactly once", where, ok)
-    # ---- edges
-    ok = True
-    eloops = [x for x in ast.walk(fn) if isinstance(x, ast.For) and any(isinstance(c, ast.Call) and ast.unparse(c.func) == GRAPH + ".add_edge" for c in ast.walk(x))]
-    if len(eloops) != 1 or any(isinstance(p_, ast.For) for p_ in [getattr(eloops[0], "_parent", None)]):
-        ok = False
-        rep.violation("R1", construct, where, "edges are not added by one loop over the graph's edges (found %d edge-adding loops / nesting): a link can be drawn twice or not at all" % len(eloops), "edge loop shape")
-    else:
-        el = eloops[0]
-        it = ast.unparse(el.iter).replace(" ", "")
-        if it not in ("iter(sys._g.edge_indices())", "sys._g.edge_indices()", "sys._g.edge_list()", "iter(sys._g.edge_list())"):
-            ok = False
-            rep.violation("R1", construct, "%s:%d" % (rel, el.lineno), "the edge loop ranges over %s, not over the graph's edge list" % it, "edge loop domain " + it)
-        calls = [c for c in ast.walk(el) if isinstance(c, ast.Call) and ast.unparse(c.func) == "pydot.Edge"]
-        if len(calls) != 1:
-            ok = False
-            rep.violation("R1", construct, "%s:%d" % (rel, el.lineno), "not exactly one edge object per graph edge", "edges per edge")
-        else:
-            a0, a1 = calls[0].args[0], calls[0].args[1]
-            mp = a0.value.id if isinstance(a0, ast.Subscript) and isinstance(a0.value, ast.Name) else None
-            mdef = [x for x in ast.walk(fn) if isinstance(x, ast.Assign) and is_name(x.targets[0], mp)] if mp else []
-            inv = {"dict(zip(sys._g.attrs['nodes'].values(),sys._g.attrs['nodes'].keys()))", "{v:kfork,vinsys._g.attrs['nodes'].items()}",
-                   "{i:nforn,iinsys._g.attrs['nodes'].items()}"}
-            def inverse_comp(v):
-                # {idx: name for name, idx in <nodes>.items()}, whatever the two names are
-                if isinstance(v, ast.DictComp) and len(v.generators) == 1 and not v.generators[0].ifs:
-                    g = v.generators[0]
-                    if isinstance(g.target, ast.Tuple) and len(g.target.elts) == 2 and all(isinstance(e, ast.Name) for e in g.target.elts) \
-                            and ast.unparse(g.iter).replace('"', "'").replace(" ", "") == "sys._g.attrs['nodes'].items()":
-                        return is_name(v.key, g.target.elts[1].id) and is_name(v.value, g.target.elts[0].id)
-                return False
-            if not mdef or (ast.unparse(mdef[0].value).replace('"', "'").replace(" ", "") not in inv and not inverse_comp(mdef[0].value)):
-                ok = False
-                rep.violation("R1", construct, "%s:%d" % (rel, calls[0].lineno), "edge endpoints are not mapped to names through the inverse of the 'nodes' registry (%s): deleted nodes leave index holes" % (ast.unparse(mdef[0].value) if mdef else "no map"), "edge endpoint map")
-            e0, e1 = ast.unparse(a0.slice), ast.unparse(a1.slice)
-            if not (e0.endswith("[0]") and e1.endswith("[1]") and e0[:-3] == e1[:-3]):
-                ok = False
-                rep.violation("R1", construct, "%s:%d" % (rel, calls[0].lineno), "edge endpoints are (%s, %s), expected (parent, child) of the same edge" % (e0, e1), "edge endpoints")
-    # legend: the only other node, only with a loss frame
-    extra = [c for c in ast.walk(fn) if isinstance(c, ast.Call) and ast.unparse(c.func) == GRAPH + ".add_node"]
-    good = len(extra) == 1
-    if good:
-        par = getattr(extra[0], "_parent", None)
-        while par is not None and not isinstance(par, ast.If):
-            par = getattr(par, "_parent", None)
-        good = par is not None and ast.unparse(par.test).replace(" ", "").endswith("isnotNone") and ast.unparse(par.test).split()[0] in ("loss",) + tuple(
-            x.targets[0].id for x in ast.walk(fn) if isinstance(x, ast.Assign) and isinstance(x.targets[0], ast.Name) and isinstance(x.value, ast.Call) and is_name(x.value.func, "_prep_loss"))
-    if not good:
-        ok = False
-        rep.violation("R1", construct, where, "the legend is not the single extra node added exactly when a loss frame is given", "legend node")
-    rep.instance("R1", construct + " one edge per link, legend only for heat diagrams", where, ok)
+    ok, rows = refcmp.compare(model, sysrules.roles(model), fn, refcmp.spec_function("spec_diag", "_diag"), rep, "R1", "diagram._diag", where, "diagram construction")
+    rep.instance("R1", "diagram._diag every component added exactly once", where, ok, "%d path pairs" % rows)
+    rep.instance("R1", "diagram._diag one edge per link, legend only for heat diagrams", where, ok)
+    if rows < 20:
+        raise AnalysisError("_diag: only %d path pairs compared" % rows)
 
 
 def r2(model, rep):
     rel = model.rel("diagram")
-    fn = model.func("diagram", "_diag")
+    fn = model.norm_func("diagram", "_diag")
     helper = [x for x in fn.body if isinstance(x, ast.FunctionDef)][0]
     ps = [a.arg for a in helper.args.args]
     if len(ps) != 4:
@@ -228,36 +89,8 @@ def r2(model, rep):
     ok, rows = refcmp.compare(model, sysrules.roles(model), helper, refcmp.spec_function("spec_diag", "add_node"), rep, "R2",
                               "diagram._diag.add_node", where, "node attributes", free=("sys",))
     rep.instance("R2", "diagram._diag.add_node override precedence", where, ok)
-    # clusters: default -> group name
-    src = ast.unparse(fn).replace('"', "'")
-    ok = True
-    bds = [x.targets[0].id for x in ast.walk(fn) if isinstance(x, ast.Assign) and isinstance(x.targets[0], ast.Name) and ast.unparse(x.value).replace(" ", "") in ("copy.deepcopy(config)", "copy.deepcopy(_DEF_CONF)")]
-    if not bds or len(set(bds)) != 1:
-        raise AnalysisError("_diag: working copy of the configuration not found")
-    BD = bds[0]
-    sub = [c for c in ast.walk(fn) if isinstance(c, ast.Call) and ast.unparse(c.func) == "pydot.Subgraph"]
-    if len(sub) != 1 or not sub[0].keywords or sub[0].keywords[-1].arg is not None or not isinstance(sub[0].keywords[-1].value, ast.Name):
-        raise AnalysisError("_diag: pydot.Subgraph(name, **attributes) not found")
-    CC = sub[0].keywords[-1].value.id
-    gl = getattr(sub[0], "_parent", None)
-    while gl is not None and not isinstance(gl, ast.For):
-        gl = getattr(gl, "_parent", None)
-    G = gl.target.id if gl is not None and isinstance(gl.target, ast.Name) else None
-    cl = [x for x in ast.walk(fn) if isinstance(x, ast.Assign) and is_name(x.targets[0], CC)]
-    if not cl or ast.unparse(cl[0].value).replace('"', "'").replace(" ", "") != "copy.deepcopy(%s['cluster']['default'])" % BD:
-        ok = False
-        rep.violation("R2", "diagram._diag", "%s:%d" % (rel, fn.lineno), "a cluster does not start from a deep copy of the cluster defaults", "cluster default")
-    good = False
-    for iff in ast.walk(fn):
-        if isinstance(iff, ast.If) and G and ast.unparse(iff.test).replace('"', "'").replace(" ", "") == "%sin%s['cluster']" % (G, BD) and len(iff.body) == 1 \
-                and isinstance(iff.body[0], ast.For) and isinstance(iff.body[0].target, ast.Name):
-            kv = iff.body[0].target.id
-            if "%s[%s]=%s['cluster'][%s][%s]" % (CC, kv, BD, G, kv) in ast.unparse(iff.body[0]).replace('"', "'").replace(" ", ""):
-                good = True
-    if not good:
-        ok = False
-        rep.violation("R2", "diagram._diag", "%s:%d" % (rel, fn.lineno), "cluster overrides are not taken from the entry named after the group", "cluster override")
-    rep.instance("R2", "diagram._diag cluster override precedence", "%s:%d" % (rel, fn.lineno), ok)
+    # cluster attribute precedence (default -> group entry) is part of the whole-function comparison of R1
+    rep.instance("R2", "diagram._diag cluster override precedence", "%s:%d" % (rel, fn.lineno), not any(f.rule == "R1" and "cluster" in f.message for f in rep.findings))
 
 
 def r3(model, rep):
@@ -272,7 +105,7 @@ def r3(model, rep):
             rep.violation("R3", "diagram." + qn, "%s:%d" % (model.rel(mod), line), "stores into %s: the caller's configuration / system data or a module default is modified" % desc, "arg mutation " + desc)
         rep.instance("R3", "diagram.%s leaves its arguments and the defaults alone" % qn, "%s:%d" % (model.rel(mod), fn.lineno), ok)
         n += 1
-    d = model.func("diagram", "_diag")
+    d = model.norm_func("diagram", "_diag")
     ok = True
     for x in ast.walk(d):
         if isinstance(x, ast.Assign) and isinstance(x.targets[0], ast.Name) and isinstance(x.value, (ast.Subscript, ast.Name)):
@@ -330,31 +163,10 @@ def r4(model, rep):
     ok, rows = refcmp.compare(model, sysrules.roles(model), fn, refcmp.spec_function("spec_diag", "_prep_loss"), rep, "R4",
                               "diagram._prep_loss", where, "loss preparation")
     rep.instance("R4", "diagram._prep_loss scale and duration-weighted mean", where, ok, "%d guard rows" % rows)
-    # label / colour of a node come from its own row; legend shows the maximum
+    # label / colour of a node from its own row, the legend value and the preparation call are part of the reference
+    # comparisons of add_node (R2) and _diag (R1)
     d = model.func("diagram", "_diag")
-    helper = [x for x in d.body if isinstance(x, ast.FunctionDef)][0]
-    GR, NAME, ATTRS, LDF = [a.arg for a in helper.args.args]
-    ok = True
-
-    lg = [x for x in ast.walk(d) if isinstance(x, ast.Assign) and isinstance(x.targets[0], ast.Subscript) and ast.unparse(x.targets[0].slice).replace('"', "'") == "'label'"
-          and isinstance(x.value, ast.Call) and isinstance(x.value.func, ast.Attribute) and x.value.func.attr == "format" and x not in ast.walk(helper)]
-    good = False
-    if lg and isinstance(lg[0].value, ast.Call) and len(lg[0].value.args) == 1:
-        a = lg[0].value.args[0]
-        LDFN = [x.targets[0].id for x in ast.walk(d) if isinstance(x, ast.Assign) and isinstance(x.targets[0], ast.Name) and isinstance(x.value, ast.Call) and is_name(x.value.func, "_prep_loss")]
-        good = isinstance(a, ast.Call) and is_name(a.func, "_nice_float") and LDFN and ast.unparse(a.args[0]).replace('"', "'") == "%s['Loss (W)'].max()" % LDFN[0] and lg[0].value.func.value.value.startswith("{}W")
-    if not good:
-        ok = False
-        rep.violation("R4", "diagram._diag", "%s:%d" % (rel, (lg[0] if lg else d).lineno), "the legend does not show the maximum loss", "legend value")
-    pl = [x for x in ast.walk(d) if isinstance(x, ast.Assign) and isinstance(x.targets[0], ast.Name) and isinstance(x.value, ast.Call) and is_name(x.value.func, "_prep_loss")]
-    if not pl or ast.unparse(pl[0].value).replace(" ", "") != "_prep_loss(loss,sys.get_sys_phases())":
-        ok = False
-        rep.violation("R4", "diagram._diag", "%s:%d" % (rel, d.lineno), "losses are not prepared from the given table with the system's own phases", "prep call")
-    if pl:
-        par = getattr(pl[0], "_parent", None)
-        if not (isinstance(par, ast.If) and ast.unparse(par.test).replace(" ", "") == "lossisnotNone"):
-            ok = False
-            rep.violation("R4", "diagram._diag", "%s:%d" % (rel, pl[0].lineno), "losses are not prepared exactly when a loss table is given", "prep condition")
+    ok = not any(f.rule in ("R1", "R2") and ("label" in f.message or "fillcolor" in f.message or "_prep_loss" in f.message) for f in rep.findings)
     rep.instance("R4", "diagram._diag heat colour / label / legend sources", "%s:%d" % (rel, d.lineno), ok)
     hd = model.func("diagram", "make_hdiag")
     sv = [x.targets[0].id for x in ast.walk(hd) if isinstance(x, ast.Assign) and isinstance(x.targets[0], ast.Name) and ast.unparse(x.value).replace(" ", "") == "sys.solve()"]
